@@ -18,7 +18,6 @@ from .interp_stmt import StmtMixin, PURE_DYN_METHODS
 class Path(PathRun, ExprMixin, CallMixin, BuiltinMixin, StmtMixin):
     def __init__(self, driver, prefix):
         PathRun.__init__(self, driver, prefix)
-        self.gcache = {}
         self.spec_env = {}
         self.pre_env = {}
         self.handling = []
@@ -49,6 +48,10 @@ class Path(PathRun, ExprMixin, CallMixin, BuiltinMixin, StmtMixin):
         return CallMixin.e_Call(self, fr, node)
 
     def call_builtin(self, fr, f, args, kw, node=None):
+        if f.name.startswith('purector!'):
+            nm = f.name[9:]
+            ts = [self.to_val(a) for a in args]
+            return SDyn(uf(f'ctor_{nm}_{len(ts)}', *([Val] * len(ts)), Val)(*ts))
         if f.name.startswith('ctor!'):
             nm = f.name[5:]
             attrs = self.d.contract.opaque_ctors[nm]
@@ -186,8 +189,9 @@ class Driver:
                     body = path.eval_spec_body(Frame(env, self.spec_mod(sf)), fn.body)
                 finally:
                     path.specmode -= 1
-                if len(path.pc) != len(saved_pc):
-                    raise Unsupported(f'recursive spec function {sf.name} needs auxiliary assumptions')
+                # instance axioms about the formal parameters (e.g. of comprehensions in the body) are dropped: the
+                # function symbols they mention are shared with the code, whose own instances carry the facts
+                del path.pc[len(saved_pc):]
                 bt = {'val': path.to_val, 'int': path.as_int, 'bool': path.truthy, 'seq': lambda v: path.as_seq(v).t,
                       'str': lambda v: v.t, 'dec': lambda v: v.t}[retk](body)
                 z3.RecAddDefinition(f, consts, bt)
@@ -584,6 +588,8 @@ _RECFUNS = {}
 def _spec_mod_lookup(orig):
     def lookup(self, mod, name):
         if isinstance(mod, _FakeMod):
+            if name in (getattr(self.d.contract, 'pure_ctors', None) or []):
+                return SBuiltin('purector!' + name)
             if name in S.SPECFUNCS:
                 return SSpecFn(S.SPECFUNCS[name])
             if name in ('implies', 'iff', 'ev', 'set_of', 'forall', 'ext', 'inputs_unchanged', 'allocated'):
